@@ -96,4 +96,11 @@ CLAIMED.update({
         "settings and every assignment of 1-3 dimensions to plot roles and checks the exclusion and split-total laws; figure.data of the plotly "
         "Sankey, plotly traces (attributed to the titled subplot they sit in) and matplotlib lines are extracted and compared.",
    technique="TLA+ plot-content operators enumerated and checked by TLC (MC_Export, parts sankey / lines); figures of the real plotters extracted and compared"),
+ "C04": dict(engine="orbits", ref="6/C04",
+   text="Prop_C04 (re-storing an operand in the canonical dimension order changes no entry; the result's own order follows the documented rule) is a "
+        "TLC-checked invariant of the label-keyed contract in MC_ArrayOps and MC_Index. On the implementation the TLC-enumerated vectors are grouped "
+        "into orbits that differ only in storage orders (all permutations of up to 3-4 dimensions, equal lengths included) and flodym's results are "
+        "compared by label within each orbit, for C and Fortran memory layouts; dedicated orbits cover lifetime parameters, split / stack and "
+        "to_df / from_df.",
+   technique="TLC-checked permutation invariant on the TLA+ contract; metamorphic orbit comparison of TLC-enumerated vectors executed on flodym"),
 })
